@@ -437,6 +437,16 @@ func (m *Manager) AllocateNAT(privateIP net.IP) (*Allocation, error) {
 	m.poolMu.Lock()
 	defer m.poolMu.Unlock()
 
+	// Look again under the pool lock: a concurrent AllocateNAT for the same private IP may
+	// have passed the check above at the same time and allocated since. Allocations are
+	// only ever inserted with the pool lock held, so this answer is final.
+	m.allocationMu.RLock()
+	existing, ok := m.allocations[privKey]
+	m.allocationMu.RUnlock()
+	if ok {
+		return existing, nil
+	}
+
 	var selectedPool *PoolEntry
 	var poolIndex, blockIndex int
 	for i := range m.pool {
